@@ -371,6 +371,10 @@ func (fv *FuncVC) binop(in *ssa.BinOp) Term {
 				a, b = y, x
 			}
 			fn := fmt.Sprintf("%s%d", name, x.Sort.W)
+			if fv.fp {
+				fv.ensureSort(x.Sort)
+				fv.fpDefine(fn, []string{x.Sort.smt(fv.Mode), x.Sort.smt(fv.Mode)}, "Bool", map[string]string{"feq": "(fp.eq x0 x1)", "flt": "(fp.lt x0 x1)", "fle": "(fp.leq x0 x1)"}[name])
+			}
 			fv.declareFun(fn, []string{x.Sort.smt(fv.Mode), x.Sort.smt(fv.Mode)}, "Bool")
 			r := app(fn, a.S, b.S)
 			if in.Op == token.NEQ {
